@@ -84,10 +84,10 @@ def param_types(con: Contract, func, fnode, owner, ct):
 
 
 def verify_function(qualname: str, self_class: Optional[str] = None, timeout_ms=QUICK_TIMEOUT_MS,
-                    safety_tag='aux') -> TaskResult:
+                    safety_tag='aux', shape: Optional[str] = None) -> TaskResult:
     ct = classtable.get_table()
     con = CONTRACTS[qualname]
-    name = qualname + (f'[{self_class}]' if self_class else '')
+    name = qualname + (f'[{self_class}]' if self_class else '') + (f'<{shape.split(":", 1)[1]}>' if shape else '')
     res = TaskResult(name)
     t0 = time.time()
     try:
@@ -140,6 +140,19 @@ def verify_function(qualname: str, self_class: Optional[str] = None, timeout_ms=
                     env[p] = FunSym(p, decl, arg_tys, rty)
                 else:
                     env[p] = SV(consts[p], ty, oid=('param', p))
+            if shape:
+                # inputs of a fixed outer shape with symbolic leaves (bounded in shape, unbounded in the leaves)
+                import importlib as _il
+                modname, rest = shape.split(':', 1)
+                fname, _, arg = rest.partition('|')
+                builder = getattr(_il.import_module(modname), fname)
+                over, facts = builder(it, ct, arg)
+                for k_, v_ in over.items():
+                    env[k_] = v_
+                    res.inputs[k_] = v_.term      # counter-models are concretised through the shape term
+                    res.input_tys[k_] = v_.ty
+                for f_ in facts:
+                    ex.assume(f_)
             if is_ctor:
                 ci = ct.classes[owner]
                 rec = Rec(ci, it.new_oid(ci.name))
@@ -317,8 +330,10 @@ def check_pre_sat(con, names, ptys, consts, ct, self_class, is_ctor):
         for c in con.requires:
             r = it.eval_clause(c.node, c.globs, it.clause_env(c, env))
             ex.assume(it.bterm(it.truth_term(r)))
+        if 'sat' in sat or len(sat) >= 3:
+            return None            # one satisfiable instance is enough (vacuity guard, not a proof duty)
         s = z3.Solver()
-        s.set('timeout', 5000)
+        s.set('timeout', 1500)
         s.add(*ex.st.pc)
         sat.append(str(s.check()))
         return None
@@ -369,7 +384,13 @@ def end_return(it: Interp, con: Contract, env, result, name):
 def end_raise(it: Interp, con: Contract, env, exc: Exc, name):
     ename, c = find_raise_clause(con, exc.cls, it)
     if c is None:
-        it.obligation(f'{name}/no-{exc.cls.__name__}', 'safety', getattr(it, 'safety_tag', 'aux'),
+        origin = getattr(exc, 'origin', None)
+        where = ('@' + origin[-1].split('.')[-1]) if origin else ''
+        via = ''
+        if origin and len(origin) > 1:
+            # the repo function of the call chain nearest to the function under verification
+            via = '<-' + origin[0].split('.')[-1]
+        it.obligation(f'{name}/no-{exc.cls.__name__}{where}{via}', 'safety', getattr(it, 'safety_tag', 'aux'),
                       z3.BoolVal(False))
         return
     mode = con.raise_mode.get(ename, 'iff')
